@@ -10,7 +10,11 @@
 (*          first delivery attempt, hopidx = the chain hop each of them    *)
 (*          was addressed to, cls = class of the deliverer's result        *)
 (*   disp : (mode = "dispatch") what the real push dispatcher did with the *)
-(*          message on a memory store                                      *)
+(*          message on a memory store; (mode = "prod") the same through    *)
+(*          the production wiring of app.VerifBoot (policy, deliverer and  *)
+(*          routes built as `hookaido run` builds them; the resolver is an *)
+(*          in-process DNS responder, the transport http.DefaultTransport  *)
+(*          replaced by the recorder)                                      *)
 (* For every line the specification computes the admissible outcomes from  *)
 (* the row and requires the observation to be one of them.  A failed       *)
 (* requirement prints <<"FAIL", line, event, check>> and validation goes   *)
@@ -69,15 +73,16 @@ Dispatch(e) ==
      \* a 30x that is not followed is not a success; a failed lookup is a plain failure: it may be retried, but every
      \* attempt stops at the same hop (no request to the hop whose addresses are unknown, nor behind it)
      /\ Chk("dlq_redirect_not_success", cls = "redirect" => d.state = "dead" /\ d.reason # "policy_denied")
-     /\ Chk("dlq_error_no_request", cls = "error" => d.total = n * d.calls /\ d.state = "dead" /\ d.reason # "policy_denied")
-     /\ Chk("dlq_terminal", d.state \in {"dead", "delivered"})
+     \* ("retrying": production-wiring mode observes one attempt and does not wait for the retry of a failed one)
+     /\ Chk("dlq_error_no_request", cls = "error" => d.total = n * d.calls /\ d.state \in {"dead", "retrying"} /\ d.reason # "policy_denied")
+     /\ Chk("dlq_terminal", d.state \in {"dead", "delivered", "retrying"} /\ (d.state = "retrying" => (cls = "error" /\ e.mode = "prod")))
 
 Step ==
   /\ l <= Len(Trace)
   /\ LET e == Trace[l]
-     IN /\ Chk("event", e.ev = "Egress" /\ e.mode \in {"direct", "dispatch"})
+     IN /\ Chk("event", e.ev = "Egress" /\ e.mode \in {"direct", "dispatch", "prod"})
         /\ Direct(e)
-        /\ (e.mode = "dispatch" => Dispatch(e))
+        /\ (e.mode \in {"dispatch", "prod"} => Dispatch(e))
   /\ l' = l + 1
 
 Next == Step
